@@ -173,6 +173,8 @@ class CallGraph:
                     if n.attr in kcls.methods:
                         if kcls.methods[n.attr].is_property:
                             add(kcls.methods[n.attr])
+                        elif isinstance(n.ctx, ast.Load) and n.attr.startswith("_") and not n.attr.startswith("__"):
+                            add(kcls.methods[n.attr])   # a private method bound to a local (`step = self._step`) is called through it
                         break
         self._edges[k] = out
         return out
